@@ -84,6 +84,7 @@ def fit (docs : List (List String)) (labels : List Bool) : Except NBErr Fitted :
   let nPos := labels.length - nNeg
   if nNeg + nPos = 0 then throw .zeroDivision
   if nNeg = 0 ∨ nPos = 0 then throw .mathDomain          -- log(0) for the class prior
+  if negKey then throw .indexError                       -- empty vocabulary: `token_counts[-1] += 0` on an empty list
   pure { vocab := vocab, nNeg := nNeg, nPos := nPos, neg := neg, pos := pos }
 
 /-- a real number of the shape `Σ c · log (num/den)` -/
